@@ -62,6 +62,7 @@ var c19FnNames = [fNFuncs]string{
 type c19Call struct {
 	fn      uint8
 	a, b, c int32
+	m       int32 // > 0: the main slice argument is passed as its prefix [:m] (cap > len), see c19Exec
 }
 
 var c19JoinWidths = []int32{1, 2, 4, 8, 16, 32, 64}
@@ -78,13 +79,26 @@ func c19Gen(r *gen.Rand, cp *c19Corpus, shared bool) c19Call {
 		switch fn {
 		case fRank64, fRank128, fGetFamily:
 			b := r.Intn(len(cp.bms))
-			call.a, call.b, call.c = int32(b), int32(r.Intn(64*len(cp.bms[b].words))), int32(r.Intn(2))
+			n := len(cp.bms[b].words)
+			if fn != fRank128 && n >= 2 && r.Intn(3) == 0 {
+				n = 1 + r.Intn(n-1)
+				call.m = int32(n)
+			}
+			call.a, call.b, call.c = int32(b), int32(r.Intn(64*n)), int32(r.Intn(2))
+			if call.m > 0 {
+				call.c = 0 // the trailing-total index belongs to the full bitmap
+			}
 		case fSelect32, fSelect32R64:
 			b := cp.sel[r.Intn(len(cp.sel))]
 			call.a, call.b = int32(b), int32(r.Intn(cp.bms[b].ones))
 		case fNextOne, fPrevOne, fSlice:
 			b := r.Intn(len(cp.bms))
-			n := 64 * len(cp.bms[b].words)
+			nw := len(cp.bms[b].words)
+			if nw >= 2 && r.Intn(3) == 0 {
+				nw = 1 + r.Intn(nw-1)
+				call.m = int32(nw)
+			}
+			n := 64 * nw
 			i := r.Intn(n)
 			e := i + r.Intn(n-i+1)
 			if fn == fPrevOne && e < 1 {
@@ -92,7 +106,14 @@ func c19Gen(r *gen.Rand, cp *c19Corpus, shared bool) c19Call {
 			}
 			call.a, call.b, call.c = int32(b), int32(i), int32(e)
 		case fToArray, fIndexBuilders, fOf:
-			call.a = int32(r.Intn(len(cp.bms)))
+			b := r.Intn(len(cp.bms))
+			call.a = int32(b)
+			if n := len(cp.bms[b].words); fn != fOf && n >= 2 && r.Intn(2) == 0 {
+				call.m = int32(1 + r.Intn(n-1))
+			}
+			if n := len(cp.bms[b].pos); fn == fOf && n >= 2 && r.Intn(2) == 0 {
+				call.m = int32(1 + r.Intn(n-1))
+			}
 		case fGetw:
 			b := r.Intn(len(cp.bms))
 			w := c19JoinWidths[r.Intn(7)]
@@ -102,6 +123,9 @@ func c19Gen(r *gen.Rand, cp *c19Corpus, shared bool) c19Call {
 			call.a, call.b, call.c = int32(s), int32(r.Intn(8*len(cp.strs[s])+10)), int32(r.Intn(33))
 		case fJoin:
 			call.a, call.b = int32(r.Intn(len(cp.vals))), c19JoinWidths[r.Intn(7)]
+			if n := len(cp.vals[call.a]); n >= 2 && r.Bool() {
+				call.m = int32(1 + r.Intn(n-1))
+			}
 		case fPathToIndex:
 			call.a, call.b, call.c = int32(r.Intn(len(cp.masks)+len(cp.bigMasks))), int32(r.Uint64()>>33), int32(r.Intn(31))
 		case fIndexToPath:
@@ -111,6 +135,9 @@ func c19Gen(r *gen.Rand, cp *c19Corpus, shared bool) c19Call {
 			call.a, call.b, call.c = int32(r.Intn(len(cp.masks))), int32(r.Intn(600)), int32(r.Intn(600))
 		case fDecode:
 			call.a = int32(r.Intn(len(cp.masks)))
+			if n := len(cp.decBms[call.a]); n >= 2 && r.Intn(3) == 0 {
+				call.m = int32(1 + r.Intn(n-1))
+			}
 		case fPathsOf:
 			call.a, call.b, call.c = int32(r.Intn(len(cp.keyLists))), int32(r.Intn(40)), int32(r.Intn(33)<<1|r.Intn(2))
 		case fPathHelpers:
@@ -119,6 +146,9 @@ func c19Gen(r *gen.Rand, cp *c19Corpus, shared bool) c19Call {
 			call.a, call.b = int32(r.Intn(len(cp.encs))), int32(r.Intn(len(cp.encs)))
 		case fBitstrCmpUpto, fBitstrStrCmpUpto:
 			call.a, call.b = int32(r.Intn(len(cp.plainB))), int32(r.Intn(len(cp.encs)))
+			if r.Bool() {
+				call.b = call.a // the related pair
+			}
 		case fBitstrNewLen:
 			call.a = int32(r.Intn(len(cp.encSrc)))
 		case fBitwordFromStrGet:
@@ -130,8 +160,14 @@ func c19Gen(r *gen.Rand, cp *c19Corpus, shared bool) c19Call {
 			call.a, call.b, call.c = int32(r.Intn(4)), int32(r.Intn(len(cp.strs))<<10|r.Intn(len(cp.strs))), int32(r.Intn(40)<<8|r.Intn(42))
 		case fBitwordStrs, fFirstDiffBits:
 			call.a, call.b = int32(r.Intn(4)), int32(r.Intn(len(cp.keyLists)))
+			if n := len(cp.keyLists[call.b]); n >= 3 && r.Intn(3) == 0 {
+				call.m = int32(2 + r.Intn(n-2))
+			}
 		case fShardByPrefix:
 			call.a, call.b = int32(r.Intn(len(cp.keyLists))), int32(1+r.Intn(12))
+			if n := len(cp.keyLists[call.a]); n >= 3 && r.Intn(3) == 0 {
+				call.m = int32(2 + r.Intn(n-2))
+			}
 		case fSigNewCountPrefixes, fSharedSigCountPrefixes:
 			k := r.Intn(len(cp.keyLists))
 			n := len(cp.keyLists[k])
@@ -157,37 +193,57 @@ func hStrs(h uint64, v []string) uint64 {
 	return gen.Hash64(h, uint64(len(v)))
 }
 
-// c19Exec executes one call on the shared corpus. With alt set, every slice / string argument is
+// c19Exec executes one call on the shared corpus. With g != nil every slice / string argument is
 // first copied into a different memory context (other capacity, alignment, poisoned neighbours):
-// the result must not change. sigs are the shared, library-built SigBits (warm phases only).
-func c19Exec(cp *c19Corpus, sigs []*sigbits.SigBits, call c19Call, alt bool) uint64 {
+// the result must not change and the poison must stay intact (checked by the caller through g).
+// sigs are the shared, library-built SigBits (warm phases only).
+func c19Exec(cp *c19Corpus, sigs []*sigbits.SigBits, call c19Call, g *c19Guards) uint64 {
 	W := func(w []uint64) []uint64 {
-		if alt {
-			return altWords(w)
+		if g != nil {
+			return g.words(w)
 		}
 		return w
 	}
 	I := func(w []int32) []int32 {
-		if alt {
-			return altI32(w)
+		if g != nil {
+			return g.i32(w)
 		}
 		return w
 	}
 	S := func(s string) string {
-		if alt {
-			return altStr(s)
+		if g != nil {
+			return g.str(s)
 		}
 		return s
 	}
 	B := func(b []byte) []byte {
-		if alt {
-			return altBytes(b)
+		if g != nil {
+			return g.bytes(b)
 		}
 		return b
 	}
 	L := func(l []string) []string {
-		if alt {
-			return altStrs(l)
+		if g != nil {
+			return g.strs(l)
+		}
+		return l
+	}
+	// prefix views of shared slices: len < cap, the rest of the backing array belongs to other readers
+	PW := func(w []uint64) []uint64 {
+		if call.m > 0 && int(call.m) < len(w) {
+			return w[:call.m]
+		}
+		return w
+	}
+	PI := func(w []int32) []int32 {
+		if call.m > 0 && int(call.m) < len(w) {
+			return w[:call.m]
+		}
+		return w
+	}
+	PL := func(l []string) []string {
+		if call.m > 0 && int(call.m) < len(l) {
+			return l[:call.m]
 		}
 		return l
 	}
@@ -199,7 +255,7 @@ func c19Exec(cp *c19Corpus, sigs []*sigbits.SigBits, call c19Call, alt bool) uin
 		if call.c == 1 {
 			idx = b.r64t
 		}
-		c, bit := bitmap.Rank64(W(b.words), I(idx), call.b)
+		c, bit := bitmap.Rank64(W(PW(b.words)), I(PI(idx)), call.b)
 		return gen.Hash64(h, uint64(c), uint64(bit))
 	case fRank128:
 		b := &cp.bms[call.a]
@@ -214,23 +270,23 @@ func c19Exec(cp *c19Corpus, sigs []*sigbits.SigBits, call c19Call, alt bool) uin
 		x, y := bitmap.Select32R64(W(b.words), I(b.sidx), I(b.r64t), call.b)
 		return gen.Hash64(h, uint64(x), uint64(y))
 	case fNextOne:
-		return gen.Hash64(h, uint64(uint32(bitmap.NextOne(W(cp.bms[call.a].words), call.b, call.c))))
+		return gen.Hash64(h, uint64(uint32(bitmap.NextOne(W(PW(cp.bms[call.a].words)), call.b, call.c))))
 	case fPrevOne:
-		return gen.Hash64(h, uint64(uint32(bitmap.PrevOne(W(cp.bms[call.a].words), call.b, call.c))))
+		return gen.Hash64(h, uint64(uint32(bitmap.PrevOne(W(PW(cp.bms[call.a].words)), call.b, call.c))))
 	case fSlice:
-		return gen.Hash64(h, gen.HashWords(bitmap.Slice(W(cp.bms[call.a].words), call.b, call.c)))
+		return gen.Hash64(h, gen.HashWords(bitmap.Slice(W(PW(cp.bms[call.a].words)), call.b, call.c)))
 	case fToArray:
-		return hI32(h, bitmap.ToArray(W(cp.bms[call.a].words)))
+		return hI32(h, bitmap.ToArray(W(PW(cp.bms[call.a].words))))
 	case fGetw:
 		return gen.Hash64(h, bitmap.Getw(W(cp.bms[call.a].words), call.b, call.c))
 	case fGetFamily:
-		w := W(cp.bms[call.a].words)
+		w := W(PW(cp.bms[call.a].words))
 		return gen.Hash64(h, bitmap.Get(w, call.b), bitmap.Get1(w, call.b), bitmap.SafeGet(w, call.b), bitmap.SafeGet1(w, call.b+int32(64*len(w))))
 	case fFromStr32:
 		n, v := bitmap.FromStr32(S(cp.strs[call.a]), call.b, call.b+call.c)
 		return gen.Hash64(h, uint64(n), v)
 	case fIndexBuilders:
-		w := W(cp.bms[call.a].words)
+		w := W(PW(cp.bms[call.a].words))
 		h = hI32(h, bitmap.IndexRank64(w))
 		h = hI32(h, bitmap.IndexRank64(w, true))
 		h = hI32(h, bitmap.IndexRank128(w))
@@ -239,9 +295,9 @@ func c19Exec(cp *c19Corpus, sigs []*sigbits.SigBits, call c19Call, alt bool) uin
 		return hI32(hI32(h, s), r)
 	case fOf:
 		b := &cp.bms[call.a]
-		return gen.Hash64(h, gen.HashWords(bitmap.Of(I(b.pos), int32(64*len(b.words)))))
+		return gen.Hash64(h, gen.HashWords(bitmap.Of(I(PI(b.pos)), int32(64*len(b.words)))))
 	case fJoin:
-		return gen.Hash64(h, gen.HashWords(bitmap.Join(W(cp.vals[call.a]), call.b)))
+		return gen.Hash64(h, gen.HashWords(bitmap.Join(W(PW(cp.vals[call.a])), call.b)))
 	case fPathToIndex:
 		var m uint32
 		if int(call.a) < len(cp.masks) {
@@ -265,7 +321,7 @@ func c19Exec(cp *c19Corpus, sigs []*sigbits.SigBits, call c19Call, alt bool) uin
 		m := cp.masks[call.a]
 		return gen.Hash64(h, gen.HashWords(bmtree.AllPaths(int32(m), uint64(call.b)<<31, uint64(call.c)<<31)))
 	case fDecode:
-		return gen.Hash64(h, gen.HashWords(bmtree.Decode(int32(cp.masks[call.a]), W(cp.decBms[call.a]))))
+		return gen.Hash64(h, gen.HashWords(bmtree.Decode(int32(cp.masks[call.a]), W(PW(cp.decBms[call.a])))))
 	case fPathsOf:
 		ks := L(cp.keyLists[call.a])
 		ht := call.c >> 1
@@ -308,15 +364,15 @@ func c19Exec(cp *c19Corpus, sigs []*sigbits.SigBits, call c19Call, alt bool) uin
 		return gen.Hash64(h, uint64(bw.FirstDiff(sa, sb, int(call.c>>8), int(call.c&255)-1)))
 	case fBitwordStrs:
 		bw := bitword.BitWord[c19BWWidths[call.a]]
-		ws := bw.FromStrs(L(cp.keyLists[call.b]))
+		ws := bw.FromStrs(L(PL(cp.keyLists[call.b])))
 		for _, x := range ws {
 			h = gen.Hash64(h, gen.HashBytes(x))
 		}
 		return hStrs(h, bw.ToStrs(ws))
 	case fFirstDiffBits:
-		return hI32(h, sigbits.FirstDiffBits(L(cp.keyLists[call.b])))
+		return hI32(h, sigbits.FirstDiffBits(L(PL(cp.keyLists[call.b]))))
 	case fShardByPrefix:
-		l, b := sigbits.ShardByPrefix(L(cp.keyLists[call.a]), call.b)
+		l, b := sigbits.ShardByPrefix(L(PL(cp.keyLists[call.a])), call.b)
 		return hI32(hI32(h, l), b)
 	case fSigNewCountPrefixes:
 		sb := sigbits.New(L(cp.keyLists[call.a]))
